@@ -47,7 +47,7 @@ import traceback
 import numpy as np
 
 from runtime import oracles
-from runtime.common import Recorder, close, jsonable, use_repo, rot_frame
+from runtime.common import Recorder, close, jsonable, use_repo, rot_frame, alternate_route
 
 K_EARLY = "run_base_capa:early-point-anomaly"
 K_START = "optimise_savings:opt-start"
@@ -287,6 +287,7 @@ def execute(case, ignore=False):
                 det = MVCAPA(collective_saving=cs, point_saving=ps, collective_penalty=cpen,
                              collective_penalty_scale=pen["cscale"], point_penalty=ppen, point_penalty_scale=pen["pscale"],
                              min_segment_length=m, max_segment_length=M, ignore_point_anomalies=ignore)
+                det = alternate_route(det)
                 sav_c, sav_p = det._collective_saving, det._point_saving
             ca, cb = resolve_mv_penalty(pen["cpen"], n, p, sav_c.get_param_size(1), pen["cscale"])
             pa, pb = resolve_mv_penalty(pen["ppen"], n, p, sav_p.get_param_size(1), pen["pscale"])
@@ -306,6 +307,7 @@ def execute(case, ignore=False):
             det = CAPA(collective_saving=cs, point_saving=ps, collective_penalty_scale=pen["cscale"],
                        point_penalty_scale=pen["pscale"], min_segment_length=m, max_segment_length=M,
                        ignore_point_anomalies=ignore)
+            det = alternate_route(det)
             out["log"], out["plog"] = attach_log(det._collective_saving), attach_log(det._point_saving)
             df = rot_frame(X, 3)
             det.fit(df)
